@@ -187,6 +187,9 @@ func c11GenOpsL(r *core.Rand, ctx string, depth int, allowCmd, inLoop bool) []c1
 			op.Name = core.Pick(r, []string{"c1", "c2"})
 		case "exit-n":
 			op.K = r.Range(0, 9)
+			if r.Chance(1, 5) {
+				op.K = core.Pick(r, []int{255, 256, 600, 512, -1, 1000000}) // "the exit status is the last exit value"
+			}
 		case "assign":
 			op.K = r.Range(0, 9)
 		case "break-if-v":
@@ -1040,6 +1043,11 @@ func (e c11Engine) Run(scAny any, keep bool) (out core.Outcome) {
 		f := &sc.Files[i]
 		_ = fs.Put(f.Name, f.bytes())
 		deliveries[f.Name] = f.D
+	}
+	// the world also holds files whose names look like assignment operands: an operand of the
+	// form var=value is an assignment whether or not such a file exists
+	for _, n := range []string{"v=7", "v=3", "v=5", "NR=10"} {
+		_ = fs.Put(n, []byte("decoy line\n"))
 	}
 	stats := &core.ReaderStats{}
 	stdin := core.NewSimReader("stdin", sc.Stdin, sc.StdinD, stats, nil)
